@@ -42,6 +42,8 @@ def run(repo, rep):
     rep.clause("C07-d", "encoder and decoder agree on the bit-stream fields: names, widths, header order, inverse biases; values fit their fields (DIROFS)")
     rep.clause("C07-e", "heap buffers are as large as the indices written to them (zero-run buffer, reorder growth check, allocation results tested)")
     rep.clause("C07-f", "kernel decomposition uses the dilation of the matching axis (dilation_xy[0] = x, [1] = y)")
+    rep.clause("C07-g", "a cached stream is returned only for the block depth it was reordered for (cache-key components named after what they hold) [rule shared with C08-h]")
+    rep.clause("C07-h", "the exported entries see the caller's values: array conversion never force-casts (a wider integer is rejected, not wrapped, before the -255..255 check)")
     rep.undecided("round trip equality, block traversal order, sufficiency of the inbuf_size*2+1024 output buffer, absence of all undefined behaviour (value level; a sanitizer / fuzzer decides those)")
     enc = CUnit(repo, ENC)
     dec = CUnit(repo, DEC)
@@ -170,7 +172,24 @@ def run(repo, rep):
     width = next((int(w) for nm, w, _ in put if nm == "DIROFS" and w.isdigit()), None)
     rep.check(m is not None and width is not None and int(m.group(1)) <= (1 << width) - 1, "C07-d", f"{ENC}:create_palette", f"direct_offset <= 2^{width} - 1 so that it fits the {width}-bit DIROFS field",
               f"loop bound {m.group(1) if m else '?'} lets direct_offset reach 2^{width}: the field wraps to 0 while the indices were already rebased")
-    rep.floor("C07-d", 16)
+    # chunk geometry: how many symbols a chunk holds and when the weight / zero-run streams are enabled is computed
+    # independently on both sides; the initialisers must be the same expressions (use_zero_runs naming normalised)
+    def decls(cu, fnames, names):
+        out = {}
+        for fn in fnames:
+            for n in cu.walk(cu.body(fn)):
+                if n.get("kind") == "VarDecl" and n.get("name") in names and n.get("inner"):
+                    t = cu.text(n["inner"][-1]).replace(" ", "").replace("p->use_zero_runs", "use_zero_run")
+                    out.setdefault(n["name"], set()).add(t)
+        return out
+
+    geo = ("max_symbols", "z_unary_len", "balance", "z_enable")
+    ed = decls(enc, ["encode_slice"], geo)
+    dd = decls(dec, list(dec.functions), geo)
+    for nm in geo:
+        rep.check(nm in ed and nm in dd and ed[nm] == dd[nm] and len(ed[nm]) == 1, "C07-d", f"{ENC}/{DEC}", f"chunk geometry `{nm}` is the same expression in encoder and decoder ({sorted(ed.get(nm, ['?']))[0]})",
+                  f"encoder {sorted(ed.get(nm, []))}, decoder {sorted(dd.get(nm, []))}: the two sides cut the chunks differently and the interleaved fields desynchronise")
+    rep.floor("C07-d", 20)
 
     # ---------------------------------------------------------------- e
     es = enc.func_text("encode_section").replace(" ", "")
@@ -213,3 +232,29 @@ def run(repo, rep):
     kw = {k.arg: norm(k.value) for k in c2[0].keywords} if c2 else {}
     rep.check(kw.get("dilation_xy") == "kernel.dilation", "C07-f", f"{WC}:encode_weight_and_scale_tensor", "dilation_xy = kernel.dilation (PointXY: x, y)", str(kw.get("dilation_xy")))
     rep.floor("C07-f", 3)
+
+    # ---------------------------------------------------------------- h: conversion flags of the exported entries
+    n_conv = 0
+    for name, d in mod.functions.items():
+        for callee, call in mod.calls(mod.body(name)):
+            if callee and callee.startswith("PyArray_From") or (callee or "") in ("PyArray_FROM_OTF", "PyArray_FROM_OF", "PyArray_FROMANY", "PyArray_CheckFromAny"):
+                n_conv += 1
+                t = mod.text(call).replace(" ", "").replace("\n", "")
+                rep.check("FORCECAST" not in t and "NPY_ARRAY_FORCE" not in t, "C07-h", f"{MOD}:{name}", f"{callee}(...) converts with safe casting only",
+                          f"{t[:140]}: values outside int16 wrap modulo 2^16 before the range check, so e.g. 65539 is encoded as 3 instead of being rejected")
+    if n_conv == 0:
+        # macro-expanded form: fall back to the source text of the entry
+        for name in ("method_reorder_encode",):
+            t = mod.func_text(name).replace(" ", "")
+            if "PyArray_FROM_OTF(" not in t:
+                raise AnalysisError("array conversion call of method_reorder_encode not found")
+            seg = t[t.index("PyArray_FROM_OTF("):]
+            seg = seg[:seg.index(";")]
+            n_conv += 1
+            rep.check("FORCECAST" not in seg, "C07-h", f"{MOD}:{name}", "PyArray_FROM_OTF(...) converts with safe casting only",
+                      f"{seg[:140]}: values outside int16 wrap modulo 2^16 before the range check, so e.g. 65539 is encoded as 3 instead of being rejected")
+    rep.floor("C07-h", 1)
+    from . import c08
+
+    with rep.borrow({"C08-h": "C07-g"}):
+        c08.run(repo, rep)
